@@ -328,6 +328,9 @@ EXTRA = [
     ("zero_parameter_function_other_return_type:field", 'print "@@RUN@@"\nmkn = fn() -> int {\n  return 42\n}\nmks = fn() -> str {\n  return "s"\n}\nclass Hq {\n  f: fn() -> str\n  constructor(self) {\n    self.f = mkn\n  }\n}\nhq = Hq()\nprint "kept"\n'),
     ("zero_parameter_function_other_return_type:literal_argument", 'print "@@RUN@@"\nmkn = fn() -> int {\n  return 42\n}\nmks = fn() -> str {\n  return "s"\n}\nuse = fn(p: fn() -> str) -> str {\n  return p()\n}\nprint use(fn() -> int {\n  return 1\n})\n'),
     ("zero_parameter_function_other_return_type:void_vs_value", 'print "@@RUN@@"\nmkn = fn() -> int {\n  return 42\n}\nmks = fn() -> str {\n  return "s"\n}\nuse = fn(p: fn() -> str) -> str {\n  return p()\n}\nvq = fn() {\n}\nprint use(vq)\n'),
+    ("opassign_promoting_kind:alias_int_float", 'print "@@RUN@@"\ntype Tq int\nxq: Tq = 1\nxq += 1.5\nprint xq\n'),
+    ("opassign_promoting_kind:alias_int_bigint_in_function", 'print "@@RUN@@"\ntype Tq int\ngo = fn() {\n  xq: Tq = 1\n  xq *= B5\n  print xq\n}\ngo()\n'),
+    ("opassign_promoting_kind:alias_byte_int", 'print "@@RUN@@"\ntype Bq byte\nxq: Bq = 0b1\nxq += 300\nprint xq\n'),
     ("call_result_of_call_arg_type", 'print "@@RUN@@"\nf = fn(a: str) -> int {\n  return 1\n}\ng = fn(b: int) -> int {\n  return b\n}\nprint f(g(1))\n'),
 ]
 
